@@ -3,7 +3,7 @@
    check run. *)
 Require Import List String Bool.
 Import ListNotations.
-Require Import Conc.TwoPLDefs Conc.Skel.
+Require Import Conc.TwoPLDefs Conc.Skel Conc.Alias.
 Local Open Scope string_scope.
 
 Definition smem (x : string) (l : list string) : bool := existsb (String.eqb x) l.
@@ -34,6 +34,7 @@ Section Obligations.
   Variable skels : list (string * list ev).
   Variable helpers : list (string * list ev).
   Variable facts : list (string * bool).
+  Variables inplace escaping : list (string * string).   (* stored byte slices: writes in place / handed to replies *)
 
   Definition exempt (name : string) : bool := smem name known && negb (smem name must_be_atomic).
 
@@ -55,10 +56,14 @@ Section Obligations.
     end.
   Definition obl_facts : bool := negb (match facts with [] => true | _ => false end) && forallb snd facts.
 
+  (* premise of reading the reply after the lock is released: stored byte slices are immutable *)
+  Definition obl_replies : bool := replies_do_not_alias_mutable_state inplace escaping.
+
   Definition all_obligations : list (string * bool) :=
     [("well_locked", obl_well_locked); ("ordered_acquisition", obl_ordered_acquisition);
      ("sections", obl_sections); ("atomic_present", obl_atomic_present);
-     ("helpers", obl_helpers); ("shape_facts", obl_facts)].
+     ("helpers", obl_helpers); ("shape_facts", obl_facts);
+     ("replies_do_not_alias_mutable_state", obl_replies)].
 End Obligations.
 
 (* one printable line per executor, for the check's report *)
